@@ -63,6 +63,13 @@ METHOD.  Every function is executed symbolically ONCE PER GRID CLASS (nine runs)
                    `csr_array((vals, (rows, rows)), shape=(S, S))` with ONE block: CHECKED rows = cols = the interior cells
                    `G[1:Nx+1, ...]`, vals of the interior shape, S the ghosted size: a diagonal matrix (row of the interior
                    cell: `St7` with the value on the diagonal and literal zeros elsewhere).
+INERT statements (tinert.py: print / warnings.warn / logging calls and asserts on PURE expressions, `pass`, `if <pure>:`
+over such statements, validation guards `if <pure>: raise E(...)`, assignments to locals that only such statements read)
+are skipped in every interpreted body (the functions, their helpers, the operator methods and the `value` property of
+CellVariable, `FaceVariable.__init__`, the body of a vectorised loop); a guard whose test the interpreter does NOT
+understand is skipped (and leaves no entry in the trace), one it understands is executed.  Keyword-only / trailing
+parameters with a default that only inert statements read are ignored in the signature checks.  The test is purely
+syntactic (closed list of side-effect-free functions, no method call, no store), so a skipped statement cannot write.
 ANY other statement or expression form makes the family `untranslated: <reason>` (no definition is emitted, the key is
 listed in `untranslated`, and the theorems about it in GenEqAvg.lean no longer compile).
 Trusted (not derived), in addition to the lists of tnum / tupw: all variables passed to a function live on the same mesh
@@ -81,6 +88,7 @@ from fractions import Fraction
 sys.path.insert(0, os.path.dirname(os.path.abspath(__file__)))
 import tnum
 import tupw
+import tinert
 from tnum import Bad, Poly, ONE, Arr, Cat, Zeros, Vec, Mat, Tup, Ref, MeshInfo, AXES, VAR, KIND, scalar, write_if_changed
 from tupw import bufof, is_input, arrs_in, render, sstrip, shift, lin
 
@@ -183,10 +191,10 @@ class Ctx:
             if [a.arg for a in fn.args.args] != ["self", "mesh"] or fn.args.vararg is None:
                 return "FaceVariable.__init__: signature"
             va = fn.args.vararg.arg
-            first = [s for s in fn.body if isinstance(s, ast.If)]
+            first = [s for s in tinert.live_body(fn) if isinstance(s, ast.If)]
             if not first or ast.unparse(first[0].test).replace(" ", "") != f"len({va})==3":
                 return "FaceVariable.__init__: first test is not len(args)==3"
-            got = [ast.unparse(s) for s in first[0].body]
+            got = [ast.unparse(s) for s in tinert.live_body(fn, first[0].body)]
             want = [f"_{a}value = {va}[{n}]" for n, a in enumerate(AXES)]
             if got != want:
                 return "FaceVariable.__init__: the three-argument branch does not bind args[0..2]"
@@ -234,13 +242,22 @@ class AInterp(tupw.UInterp):
                 raise Bad("statement after return")
             if isinstance(st, ast.Expr) and isinstance(st.value, ast.Constant) and isinstance(st.value.value, str):
                 continue
+            if self.inert.skip(st):             # inert statement (tinert.py): no effect on the result
+                continue
             st = tnum.plain_assign(st)
             if isinstance(st, ast.Assign):
                 self.assign(st)
             elif isinstance(st, ast.AugAssign):
                 self.augassign(st)
             elif isinstance(st, ast.If):
-                r = self.test(st.test)
+                ntrace = len(self.trace)
+                try:
+                    r = self.test(st.test)
+                except Bad:
+                    if self.inert.skip_guard(st):       # a validation guard on a test that is not understood
+                        del self.trace[ntrace:]
+                        continue
+                    raise
                 self.exec_block(st.body if r else st.orelse)
             elif isinstance(st, ast.For):
                 self.exec_for(st)
@@ -394,9 +411,10 @@ class AInterp(tupw.UInterp):
         v = st.target.id
         if v in self.env or v in self.pars:
             raise Bad(f"loop variable {v} shadows a name")
-        if len(st.body) != 1:
+        lbody = [x for x in st.body if not self.inert.skip(x)]
+        if len(lbody) != 1:
             raise Bad("loop body is not a single statement")
-        b = st.body[0]
+        b = lbody[0]
 
         def target(s):
             if not (isinstance(s, ast.Assign) and len(s.targets) == 1 and isinstance(s.targets[0], ast.Subscript)
@@ -558,7 +576,8 @@ class AInterp(tupw.UInterp):
                                                                and not other.dims)):
             raise Bad(f"CellVariable.{meth}: operand is neither a CellVariable nor a number")
         fn = self.ctx.cell_method(meth)
-        if [p.arg for p in fn.args.args] != ["self", "other"] or fn.args.vararg or fn.args.kwonlyargs or fn.args.defaults:
+        fa = tinert.effective_args(fn)
+        if [p.arg for p in fa.args] != ["self", "other"] or fa.vararg or fa.kwonlyargs or fa.defaults:
             raise Bad(f"CellVariable.{meth}: signature")
         sub = self.spawn("cell")
         sub.env["self"], sub.env["other"] = slf, other
@@ -734,7 +753,7 @@ class AInterp(tupw.UInterp):
         if node.keywords or any(isinstance(a, ast.Starred) for a in node.args):
             raise Bad(f"call of {name} with keywords / starred arguments")
         fn = self.helpers.fns[name]
-        a = fn.args
+        a = tinert.effective_args(fn)
         if a.vararg or a.kwarg or a.kwonlyargs or a.defaults or len(a.args) != len(node.args):
             raise Bad(f"call of {name}: signature")
         args = [self.ev(x) for x in node.args]
@@ -832,7 +851,7 @@ def run_class(ctx, mod, fname, vpars, cls):
     fn = ctx.functions(mod).get(fname)
     if fn is None:
         raise Bad("function not found")
-    a = fn.args
+    a = tinert.effective_args(fn)
     if a.vararg or a.kwarg or a.kwonlyargs or [p.arg for p in a.args] != [p for p, _, _ in vpars]:
         raise Bad("signature")
     ndef = len(a.defaults)
@@ -1007,6 +1026,7 @@ variable {α : Type} [Field α] [LinearOrder α] [IsStrictOrderedRing α]
 
 def generate(repo):
     status, out = {}, [HEADER]
+    tinert.set_repo(repo)
     ctx = Ctx(repo)
     last_mod = None
     order = sorted(FUNCS, key=lambda f: ["averaging", "calculus", "source"].index(f[0]))
@@ -1043,6 +1063,7 @@ def main():
     repo = os.environ.get("VERIF_REPO", "/repo")
     dst = sys.argv[1]
     text, status = generate(repo)
+    status = tinert.annotate(status)
     write_if_changed(dst, text)
     base = os.path.splitext(os.path.basename(dst))[0].lower()
     write_if_changed(os.path.join(os.path.dirname(os.path.abspath(dst)), f"{base}_status.json"),
